@@ -77,7 +77,7 @@ ASSUMPTIONS = [
     'an unbound functor argument is not missing (documented); no functor argument is a schema-bound Dict without default, whose unbound state the library materialises as a partial dict (whether that counts as missing is left open)',
     'after a call that wrote into or below a functor argument, the functor and all its ancestors are asked every getter also in the sparse-getter mode',
     'expected locations are the positions found by walking the containers from the receiver (sym_items), never the sym_path the library reports; a history continues over a tree whose only fault is a stale sym_path',
-    'secondary APIs (patch_on_*, pg.patch, clone(override=)): the written locations are the identity differences of the containers before and after the call (which locations a pattern matches is not judged); an explicit skip_notification=False inside notify_on_change(False) is not generated (which request wins is left open); pg.patch gets one rule (a list of rules is a chain of calls); a patch_on_* call with MISSING_VALUE leaves an event open for every untouched member below the receiver (a matched location already at its default); events of the clone made by clone(override=) are not judged, only that no node of the original hears anything',
+    'secondary APIs (patch_on_*, pg.patch, clone(override=)): the written locations are the identity differences of the containers before and after the call (which locations a pattern matches is not judged); an explicit skip_notification=False inside notify_on_change(False) is not generated (which request wins is left open); pg.patch gets one rule (a list of rules is a chain of calls); a patch_on_* call with MISSING_VALUE leaves an event open for every untouched member below the receiver (a matched location already at its default), and the LOCATIONS carried by the events of such a deleting batch are not judged (deletions shift the list positions of the later ones while the batch is applied; counted as payload_keys_unjudged:deleting-patch-batch); events of the clone made by clone(override=) are not judged, only that no node of the original hears anything',
     'a plain dict returned by sym_missing / sym_nondefault / missing_values / non_default_values belongs to the caller: mutating it is not a mutation of the tree, so every derived fact must read as before (compared with copies of the answers taken just before; those were compared with fresh copies after the step); not done in sparse-getter cases',
 ]
 
@@ -1046,6 +1046,10 @@ def execute(forest, step, build):
 def mechanism(step, status, derived):
   if derived:
     if status == 'raise':
+      # A refused call of the patching API (a batch over every matching place)
+      # is a class of its own: the batch may have been applied in part.
+      if str(step['op']).startswith(('patch', 'pg.patch')):
+        return 'rejected-call[patch-batch]'
       return 'rejected-call'
     if H.notify_suppressed(step):
       return 'notify-suppressed'
@@ -1311,6 +1315,17 @@ def run_case(ctx, i):
           # events that follow are judged against the true positions, and the
           # finding is keyed by the call that left the path stale.
           mech = stale_origin + '>stale-path'
+        if (clause == 'payload-keys' and mech is None
+            and str(step['op']).startswith(('patch', 'pg.patch'))
+            and step['args'].get('v') == ['missing']):
+          # A patch that DELETES every matching place is a batch whose
+          # deletions shift the list positions of the later ones while it is
+          # applied; whether the locations in the events are those before or
+          # after the shift is left open by the documentation, and the
+          # expected-location calculator models one write at a time. Counted,
+          # not judged (found by the thorough tier: 1 case in 4000).
+          c['payload_keys_unjudged:deleting-patch-batch'] += 1
+          continue
         mech = mech or mechanism(step, status, False)
         if (clause, mech) in seen_key:
           continue
